@@ -13,7 +13,7 @@ DEFAULTS = dict(
     p_eventless=0.25, p_internal=0.2, p_guard=0.6, min_trans=2, max_trans=14,
     p_send=0.25, p_state_send=0.08, p_notify=0.3, delays=(0, 0, 0, 0.125, 1, 1, 2, 5),
     contracts=False, p_contract=0.5, timed=False, timed_plain=0.0, mode=None, priorities=(-1, 0, 0, 0, 1, 2),
-    min_states=3, root_basic_ok=0.05, allow_inner_history=False, p_shared_text=0.0, p_active_call=0.0, p_twin=0.0, p_odd_names=0.0, p_hier_names=0.0, p_short_names=0.15,
+    min_states=3, root_basic_ok=0.05, allow_inner_history=False, p_shared_text=0.0, p_event_guard=0.0, p_active_call=0.0, p_twin=0.0, p_odd_names=0.0, p_hier_names=0.0, p_short_names=0.15,
 )
 
 
@@ -411,6 +411,20 @@ def _gen_transitions(rnd, ch, o):
         b['tguard'] = None
         a['action_text'] = key          # ... and a's action is the very same text H(key)
         a['sends'] = []
+    # one guard text on an eventless and on an event-triggered transition of the same state, whose answer depends on the event it
+    # is shown (HE(key, event)): the first is asked without the pending event, the second with the event that is consumed
+    if o['p_event_guard'] and rnd.random() < o['p_event_guard']:
+        bysrc = {}
+        for t in trans:
+            bysrc.setdefault(t['source'], []).append(t)
+        cands = [(a, b) for ts in bysrc.values() for a in ts for b in ts
+                 if a['event'] is None and b['event'] is not None and not (a.get('gkey') or b.get('gkey'))
+                 and not (a.get('tguard') or b.get('tguard')) and not (a.get('action_text') or b.get('action_text'))]
+        if cands:
+            a, b = rnd.choice(cands)
+            for t in (a, b):
+                t['guard'] = True
+                t['ekey'] = 'v%s' % b['id'][1:]
     # documented active() predicate called from executable code (its value is discarded)
     if o['p_active_call']:
         for n in order:
